@@ -802,7 +802,9 @@ async fn mode_c07(args: &Args, sum: &mut Summary) {
                 Ok(mgr) => drop(mgr),
                 Err(e) => { sum.violation(id, "recovery of a damaged directory fails instead of completing", &[], json!({"at": what, "error": e.to_string()})); }
             }
-            let bound = 64 * total + (1 << 20);
+            // serde caps the pre-allocation for a claimed collection length at about 1 MiB worth of
+            // elements (1.6 MB observed for a garbage HashMap length), independent of the input: allow 4 MiB
+            let bound = 64 * total + (4 << 20);
             if peak > bound || biggest > bound {
                 sum.violation(id, "memory requested during recovery is not proportional to the size of the files", &[],
                     json!({"at": what, "peak_bytes": peak, "largest_single_request": biggest, "bytes_on_disk": total, "bound": bound}));
